@@ -3,6 +3,7 @@
 package c15
 
 import (
+	"errors"
 	"context"
 	"fmt"
 	"log"
@@ -528,7 +529,62 @@ func slogFEs() []sfe {
 	}
 }
 
+// inlinedHelpers: slog calls made inside small helper functions that the compiler inlines into their
+// callers still have a call site - the line inside the helper - and the entry must name it.
+func inlinedHelpers(r *ev.Run) {
+	const pkg = "go.uber.org/zap/verif/props/c15."
+	cases := []struct {
+		fn   string
+		line int
+		emit func(l *slog.Logger, msg string)
+	}{
+		{pkg + "inlNote", lineOfInlNote(), func(l *slog.Logger, m string) { inlNote(l, m) }},
+		{pkg + "inlWarn", lineOfInlWarn(), func(l *slog.Logger, m string) { inlWarn(l, m, errors.New("e")) }},
+		{pkg + "(*inlService).started", lineOfInlStarted(), func(l *slog.Logger, m string) { (&inlService{l}).started(m) }},
+	}
+	for round := 0; round < 20; round++ {
+		for ci, c := range cases {
+			id := fmt.Sprintf("c15/slog-inlined-helper/%d/%d", round, ci)
+			if !r.Want(id) {
+				continue
+			}
+			core, logs := observer.New(zapcore.DebugLevel)
+			h := zapslog.NewHandler(core, zapslog.WithCaller(true))
+			var hd slog.Handler = h
+			if round%2 == 1 {
+				hd = h.WithAttrs([]slog.Attr{slog.Int("round", round)}).WithGroup("g")
+			}
+			msg := fmt.Sprintf("inl%d-%d", round, ci)
+			pn := ev.Guard(func() { c.emit(slog.New(hd), msg) })
+			r.Eval(1)
+			r.Count("slog_calls_inside_inlinable_helpers", 1)
+			r.Distinct(fmt.Sprintf("inl|%d|%d", round%2, ci))
+			bad := func(f string, a ...any) {
+				r.Violate(ev.Violation{Case: id, Class: "slog-caller", Msg: fmt.Sprintf("slog call inside the small helper %s: ", c.fn) + fmt.Sprintf(f, a...)})
+			}
+			if pn != "" {
+				bad("panicked: %s", pn)
+				continue
+			}
+			es := logs.TakeAll()
+			if len(es) != 1 {
+				bad("%d entries recorded, want 1", len(es))
+				continue
+			}
+			cl := es[0].Caller
+			if !cl.Defined {
+				bad("caller annotation is enabled but the entry has no caller")
+				continue
+			}
+			if cl.Function != c.fn || cl.Line != c.line || !strings.HasSuffix(cl.File, "inl_helpers.go") {
+				bad("caller is %s:%d %s, want inl_helpers.go:%d %s", cl.File, cl.Line, cl.Function, c.line, c.fn)
+			}
+		}
+	}
+}
+
 func slogCases(r *ev.Run) {
+	inlinedHelpers(r)
 	fes := slogFEs()
 	n := r.N(3000, 200000)
 	for i := 0; i < n; i++ {
